@@ -128,7 +128,47 @@ def bstep (m : BMon) (ts : List String) : BMon × String :=
 
 def bfMon : Suite := { σ := BMon, init := {}, step := bstep }
 
+/-! ### c17seqmon: the real helper results against the plan-defined result (filters first, then the window) -/
+
+open Dawgs.C17.Seq in
+/-- did the tracker-free DFS finish within the fuel? -/
+def coreDone (p : Plan) : Nat → Core → Bool
+  | 0, c => c.stack.isEmpty
+  | f + 1, c => match iterCore p c with
+    | none => true
+    | some (c', _) => coreDone p f c'
+
+open Dawgs.C17.Seq in
+def sstep (st : Driver.C17.SSt) (ts : List String) : Driver.C17.SSt × String :=
+  let (op, out) := splitArrow ts
+  let got := " ".intercalate out
+  match op with
+  | ["graph"] => ({}, if got == "ok" then "ok" else "reject bad-output " ++ got)
+  | ["edge", e, a, b] => match e.toNat?, a.toNat?, b.toNat? with
+    | some e, some a, some b => ({ st with edges := Driver.C17.insertEdge (e, a, b) st.edges }, "ok")
+    | _, _, _ => (st, "reject bad-op")
+  | ["window", skip, limit, n] => match skip.toInt?, limit.toInt?, n.toNat? with
+    | some skip, some limit, some n =>
+      let want := natList (window skip limit (List.range n))
+      (st, if got == want then "ok" else s!"reject window-mismatch LimitSkipTracker collected {got}, the plan defines {want}")
+    | _, _, _ => (st, "reject bad-op")
+  | ["pfloors", mx, _workers] => match mx.toNat? with
+    | some mx =>
+      let want := natList ((List.range (mx / 20000 + 1)).map (· * 20000))
+      (st, if got == want then "ok" else s!"reject range-partition queried floors {got}, expected {want}")
+    | none => (st, "reject bad-op")
+  | _ => match Driver.C17.parseQuery st.edges op with
+    | none => (st, "reject bad-op")
+    | some q =>
+      let fuel := Driver.C17.seqFuel st.edges
+      let c0 : Core := { stack := [{ root := q.root, steps := [] }], visited := [] }
+      if !coreDone q.plan fuel c0 then (st, "ok unjudged: the plan does not terminate within the model fuel") else
+      let want := Driver.C17.fmtResult q (specOut q.plan q.root q.skip q.limit fuel)
+      (st, if got == want then "ok" else s!"reject result-mismatch got {got} but the plan defines {want}")
+
+def seqMon : Suite := { σ := Driver.C17.SSt, init := {}, step := sstep }
+
 end Driver.C17Mon
 
 def Driver.C17Mon.suites : List (String × Driver.Suite) :=
-  [("c17pipemon", Driver.C17Mon.pipeMon), ("c17bfmon", Driver.C17Mon.bfMon)]
+  [("c17pipemon", Driver.C17Mon.pipeMon), ("c17bfmon", Driver.C17Mon.bfMon), ("c17seqmon", Driver.C17Mon.seqMon)]
